@@ -10,6 +10,7 @@ Wiedemann / Berlekamp–Massey code of intsparse.rs have no theorem (K/O only).
 -/
 import Ymq.Lemmas.IntMatCrt
 import Ymq.Lemmas.IntMatPerm
+import Ymq.Lemmas.IntMatEchPDet
 import Ymq.Lemmas.SnfCols
 import Ymq.Lemmas.SnfDiag
 import Ymq.Lemmas.SnfReduceCols
@@ -220,6 +221,32 @@ theorem perm_sign (n : Nat) (σ : Equiv.Perm (Fin n)) :
 
 /-- the model computes: the 3-cycle `0 → 1 → 2 → 0` is sorted with two swaps (even) -/
 example : permSwaps [1, 2, 0] = some 2 := by decide
+
+/-- **Determinant modulo `p` = sign · product of the pivots** — PARTIAL (stretch goal). The theorem is
+about `EchP`, the reference echelon builder in plain modular arithmetic with the sequential
+elimination (Ymq/Model/IntMat.lean): the same algorithm as `GFpEchelonBuilder::{add, det}` without
+Montgomery form and without the 8-row blocks. The production model `Ech` (Montgomery form on the
+C07 word model, blocked elimination) is not related to `EchP` by a proof: the driver answers every
+echelon request with both models and the pipeline compares both with the implementation.
+Statement: if `add` accepts all `n` rows of an `n × n` integer matrix (`acceptAll`, no panic site
+reached: in particular the `assert_eq!(vp[i], self.r)` after the division certifies the modular
+inverse, so no hypothesis on `inv_mod64` and no primality of `p` is needed) and `det()` returns `d`,
+then `d ≡ det(matrix) (mod p)`, with the sign computed by the cycle walk (`perm_sign`).
+Missing: the rejected-row case (`add` returns false ⇒ `det ≡ 0`, used by `det_matz` when `p ∣ det`),
+totality, and the refinement `Ech → EchP`. -/
+theorem echelon_det_partial (inv : Inv) (p n : Nat) (hn : 0 < n) (mat : List (List Int))
+    (hlen : mat.length = n) (hrows : ∀ r ∈ mat, r.length = n) (e : EchP) (d : Nat)
+    (hacc : acceptAll inv { p := p, indices := [], basis := [], factors := [] } mat = some e)
+    (hdet : e.det = some d) :
+    ((d : Nat) : ZMod p) = (matOf p n mat).det :=
+  echP_det inv p n hn mat hlen hrows e d hacc hdet
+
+/-- non-vacuity: the matrix `[[1, 2], [3, 4]]` modulo `101` is accepted row by row and `det()` returns
+`99 = -2` (K corpus line `im_echelon 101 1,2;3,4`); the inverse is found by search below `p` -/
+example : ∃ (inv : Inv) (e : EchP), acceptAll inv { p := 101, indices := [], basis := [], factors := [] }
+    [[1, 2], [3, 4]] = some e ∧ e.det = some 99 := by
+  refine ⟨fun a p => some ((List.range p).find? (fun i => a * i % p = 1)),
+    { p := 101, indices := [0, 1], basis := [[1, 2], [0, 1]], factors := [1, 99] }, by decide, by decide⟩
 
 /-! ### Smith normal form
 
